@@ -144,7 +144,14 @@ def _benign(ds, b, what, k):
     elif what == "reads":
         b.metadata(); ds.buckets(); b.get_eventcount()
         for e in b.get(3):
-            b.get_by_id(e.id)
+            got = b.get_by_id(e.id)
+            # what a reader does with the events it was handed is its own business (an activity view annotates them in place)
+            for x in (e, got):
+                if x is not None:
+                    x.data["$category"] = ["Work"]
+                    for v in x.data.values():
+                        if isinstance(v, list):
+                            v.append("seen")
     else:
         b2 = ds["hb"]
         b2.get(limit=1); b2.get(limit=2); b2.get_eventcount(); b2.metadata()
